@@ -135,8 +135,9 @@ def magic_rules(prog, rule):
         if c is None:
             continue
         c = strip(c)
-        if c.get("k") == "bin" and c.get("op") == "==" and const(c.get("rhs")) == len(want2) and "tvalue_length" in str(path(strip(c.get("lhs"))) or ""):
-            found = True
+        if c.get("k") == "bin" and c.get("op") in ("==", "!=") and "tvalue_length" in str(path(strip(c.get("lhs"))) or "") \
+                and const(c.get("rhs")) == len(want2):
+            found = True        # `== MAGIC_LENGTH` guarding the comparisons, or `!= MAGIC_LENGTH` guarding their absence
     (rule.ok if found else lambda k, d="": rule.violation(f.file, f.name, f.line, k, "token length is not compared with the magic length"))(
         "cif_parse_internal:token-length==magic-length", "")
 
@@ -334,6 +335,27 @@ def precision_rule(prog, chk, rid):
 
 def text_field_rules(prog, chk, ida, idb):
     from .. import writerrules
+    ra0 = chk.rule(ida + "a-text-field-only-where-allowed", "write_char writes a text field only where its caller allows one: the "
+                   "write_text call is dominated by a non-zero test of the allow_text parameter in every dialect (table keys "
+                   "cannot be text fields)", floor=1)
+    wcf = prog.fn("write_char")
+    wt_calls = wcf.calls_to("write_text")
+    allow = next((p_["name"] for p_ in wcf.params if p_["name"].startswith("allow")), None)
+    if not wt_calls or allow is None:
+        raise Broken("write_char: write_text call or allow_text parameter not found")
+
+    def allowed(c):
+        z = cfgq.zero_test(c, lambda e: path(strip(e)) == allow)
+        return None if z is None else ("false" if z == "true" else "true")
+    ae = cfgq.guard_edges(wcf, allowed)
+    for (b, i, r, c) in wt_calls:
+        if ae and cfgq.must_pass_edge(wcf, b.id, ae):
+            ra0.ok("write_char:L%s" % c.get("l"), "dominated by `%s` non-zero" % allow)
+        else:
+            ra0.violation(wcf.file, wcf.name, c.get("l"), "text-field-where-not-allowed",
+                          "write_text at L%s can be reached with `%s` zero (the refusal is tied to another condition as well): a "
+                          "table key that can be neither quoted nor triple-quoted is written as a text field, which the parser "
+                          "rejects as a key" % (c.get("l"), allow))
     rp = chk.rule(idb + "b-fold-accounts-for-prefix", "write_char's decision not to fold a text field compares the longest line plus "
                   "the prefix length with the limit when a prefix can be requested", floor=1)
     writerrules.fold_accounts_for_prefix(prog, rp)
